@@ -58,7 +58,7 @@ var knobsHealth = Knobs{MinInst: 1, MaxInst: 3, LatFrac: 0.2, WatchDelayH: 0.5, 
 
 func TestC12(t *testing.T) {
 	RunCheck(t, CheckSpec{Prop: "C12",
-		Rule: "1-3 instances with a scripted health checker (healthy / unhealthy / slow-then-healthy / slow-then-unhealthy = blocks until the supplied context is done), thresholds MaxConsecutiveFailures in {0(->3),1,2,3,5}, heartbeat intervals 100ms..3s (the heartbeat time-out switches from 1s to H/2 above 2s), scripts that over-weight runs of threshold-1, threshold, threshold+1 unhealthy results, runs of 30-70 H so that an instance leads several terms (re-acquires after its record lapses), occasional stops/restarts, in a third of the plans isolated transient failures of 1-6 of the instance's first 25 refreshes; oracle: a reference consecutive-failure counter per term fed with the checker's own call log decides on which tick the health mechanism must demote (exactly at the threshold, never below, reset by a healthy result and by a new term), plus ctx deadline <= 100ms, no refresh on unhealthy ticks, OnDemote, FOLLOWER afterwards and re-election of a sole candidate within 600ms + latencies of the record's lapse. Non-trivial = a script with >= 1 unhealthy result reached a leader; distinct by plan hash.",
+		Rule: "1-3 instances with a scripted health checker (healthy / unhealthy / slow-then-healthy / slow-then-unhealthy = blocks until the supplied context is done), thresholds MaxConsecutiveFailures in {0(->3),1,2,3,5, 2^31, 2^32+1}, heartbeat intervals 100ms..3s (the heartbeat time-out switches from 1s to H/2 above 2s), scripts that over-weight runs of threshold-1, threshold, threshold+1 unhealthy results, runs of 30-70 H so that an instance leads several terms (re-acquires after its record lapses), occasional stops/restarts, in a third of the plans isolated transient failures of 1-6 of the instance's first 25 refreshes; oracle: a reference consecutive-failure counter per term fed with the checker's own call log decides on which tick the health mechanism must demote (exactly at the threshold, never below, reset by a healthy result and by a new term), plus ctx deadline <= 100ms, no refresh on unhealthy ticks, OnDemote, FOLLOWER afterwards and re-election of a sole candidate within 600ms + latencies of the record's lapse. Non-trivial = a script with >= 1 unhealthy result reached a leader; distinct by plan hash.",
 		Gen: func(t *rapid.T) *Plan {
 			if rapid.IntRange(0, 6).Draw(t, "straggler") == 0 {
 				return GenStragglerPlan(t, "health")
@@ -67,7 +67,7 @@ func TestC12(t *testing.T) {
 			for i := range p.Instances {
 				if !p.Instances[i].HasHealth && i == 0 {
 					p.Instances[i].HasHealth = true
-					p.Instances[i].MCF = rapid.SampledFrom([]int{0, 1, 2, 3, 5}).Draw(t, "mcf0")
+					p.Instances[i].MCF = rapid.SampledFrom([]int{0, 1, 2, 3, 5, 1 << 31, 1<<32 + 1}).Draw(t, "mcf0")
 					p.Instances[i].Health = GenHealthScript(t, p.Instances[i].MCF)
 				}
 			}
